@@ -281,7 +281,12 @@ func WorkerMain(t *testing.T) {
 		res := eng(t, rc)
 		sum.Runs++
 		sum.Steps += res.Steps
-		sum.SimTimeNs += int64(res.SimTime)
+		if st := res.SimTime; st > 0 {
+			if st > time.Hour {
+				st = time.Hour // centuries-long jumps towards far-away deadlines would drown everything else
+			}
+			sum.SimTimeNs += int64(st)
+		}
 		for i, c := range res.Counters {
 			counters[i] += c
 		}
